@@ -110,6 +110,12 @@ type C struct {
 	res    *Result
 }
 
+// NewDetachedC returns a context whose reports go nowhere (for helper child processes that
+// communicate through their own log).
+func NewDetachedC(id string, seed uint64, idx int) *C {
+	return &C{ID: id, Seed: seed, Idx: idx, Tier: "quick", res: NewResult(), Rand: RandFor(seed, id, idx, "detached")}
+}
+
 func (c *C) Thorough() bool { return c.Tier == "thorough" }
 
 // Pick returns q for quick and t for thorough.
